@@ -570,6 +570,18 @@ func RunHistory(ini Init, family string, withDump bool, next func(in *inst, step
 				if in.gapStart(arg(op, 4), arg(op, 3)*ini.Spe, true) {
 					cj.Feat["gap_anchor_updates"]++
 				}
+				if w, ok := forkchoice.VerifDumpWrapper(in.fc); ok {
+					jE, fE := arg(op, 1), arg(op, 3)
+					if jE > uint64(w.Justified.Epoch) && fE < uint64(w.Finalized.Epoch) {
+						cj.Feat["mixed_just_ahead_fin_behind"]++
+						if d, ok := proto.VerifDumpArray(in.graph); ok && d.IndexOffset > 0 {
+							cj.Feat["mixed_just_ahead_fin_behind_after_prune"]++
+						}
+					}
+					if jE <= uint64(w.Justified.Epoch) && fE > uint64(w.Finalized.Epoch) {
+						cj.Feat["mixed_fin_ahead_just_behind"]++
+					}
+				}
 			case "FindHead":
 				if in.gapStart(arg(op, 0), arg(op, 1), false) {
 					cj.Feat["gap_start_heads"]++
